@@ -97,15 +97,15 @@ theorem paren_rule_matches_grammar :
 def Stops (rest : List Tok) : Prop :=
   rest = [] ∨ ∃ t r, rest = t :: r ∧ Closes .Standard t
 
-/-- **roundtrip_expr_partial.** For every tree over literals, identifiers, all 10 unary and all 30 binary operators
-and the conditional, nested to any depth: the tokens of the printed text, followed by anything that ends an
+/-- **roundtrip_expr_partial.** For every tree over literals, identifiers, all 10 unary and all 30 binary operators,
+the conditional, member access and array subscript, nested to any depth: the tokens of the printed text, followed by anything that ends an
 expression, are read by the parser model at the top level (`expr_p15`, terminator `Standard`) as exactly the tree.
 
 Partial, because `WF` excludes exactly: (1) literals that do not print as one token reading back as themselves
 (negative values, `-0.0`, NaN, integral `Float16`/`Float64`, … — `LitOk`), (2) an assignment as the *middle* operand of
-a conditional — where the full statement is false, `ternary_middle_assignment_breaks` — and (3) subscript, member and
-call nodes, which the models cover (correspondence-tested) but this induction does not yet; casts, `sizeof`,
-template arguments and braced initialisers are not in the model at all. -/
+a conditional — where the full statement is false, `ternary_middle_assignment_breaks` — and (3) call nodes, which the
+models cover (correspondence-tested) but this induction does not yet; casts, `sizeof`, template arguments and braced
+initialisers are not in the model at all. -/
 theorem roundtrip_expr_partial (e : Expr) (hwf : WF e) (rest : List Tok) (hrest : Stops rest) :
     ReadsBack e rest := by
   have hno : NoLow 15 .Standard rest := by
@@ -133,7 +133,8 @@ theorem roundtrip_subexpr_partial (e : Expr) (hwf : WF e) (outer : Nat) (side : 
 def sample : Expr :=
   .bin .Assignment (.id "r")
     (.tern (.bin .LessThan (.bin .Add (.id "a") (.bin .Multiply (.id "b") (.un .Minus (.un .Minus (.id "c"))))) (.id "d"))
-      (.bin .Subtract (.id "x") (.bin .Subtract (.id "y") (.un .PostfixDecrement (.id "z"))))
+      (.bin .Subtract (.id "x") (.bin .Subtract (.sub (.mem (.id "y") "m") (.bin .Sequence (.id "i") (.id "j")))
+        (.un .PostfixDecrement (.id "z"))))
       (.bin .Sequence (.bin .BitwiseOrAssignment (.id "p") (.id "q")) (.un .LogicalNot (.id "w"))))
 
 example : WF sample := by simp [sample, WF, Expr.lvl, binLevel, levelOfPrec, binPrec]
